@@ -242,7 +242,7 @@ def run(argv):
                     if np.min(quantiles) < 0 or np.max(quantiles) > 1:
                         verif.util.error("Quantiles must be between 0 and 1 inclusive")
                 elif arg == "-ms":
-                    marker_sizes = verif.util.parse_ints(arg_next)
+                    marker_sizes = verif.util.parse_numbers(arg_next)
                 elif arg == "-lw":
                     line_widths = verif.util.parse_numbers(arg_next)
                 elif arg == "-lc":
